@@ -1271,7 +1271,7 @@ class x86allmncs(object):
         addop("ret",   [0xC2],             noafs, [u16]         , {}                 ,{}                , {bkf:True},                 )
         addop("retf",  [0xCA],             noafs, [u16]         , {}                 ,{}                , {bkf:True},                 )
 
-        addop("rms",   [0x0F, 0xAA],       noafs, no_rm         , {}                 ,{}                , {},                         )
+        addop("rsm",   [0x0F, 0xAA],       noafs, no_rm         , {}                 ,{}                , {},                         )
         addop("sahf",  [0x9E],             noafs, no_rm         , {}                 ,{}                , {},                         )
 
         addop("sar",   [0xD0],             d7   , [im1]         , {w8:(0,0)}         ,{}                , {},                         )
@@ -1615,7 +1615,7 @@ class x86allmncs(object):
         addop("dp##PS#",    [0x0F, 0x3A,0x40], noafs, [rmr,u08] , {}                 ,{mmx:True}        , {w8:True},                  )
         addop("dp##PD#",    [0x0F, 0x3A,0x41], noafs, [rmr,u08] , {}                 ,{mmx:True}        , {w8:True},                  )
         addop("m##PS#adbw", [0x0F, 0x3A,0x42], noafs, [rmr,u08] , {}                 ,{mmx:True}        , {w8:True},                  )
-        addop("#p#clmumqdq",[0x0F, 0x3A,0x44], noafs, [rmr,u08] , {}                 ,{mmx:True}        , {w8:True},                  )
+        addop("#p#clmulqdq",[0x0F, 0x3A,0x44], noafs, [rmr,u08] , {}                 ,{mmx:True}        , {w8:True},                  )
         addop("#p#cmpestrm",[0x0F, 0x3A,0x60], noafs, [rmr,u08] , {}                 ,{mmx:True}        , {w8:True},                  )
         addop("#p#cmpestri",[0x0F, 0x3A,0x61], noafs, [rmr,u08] , {}                 ,{mmx:True}        , {w8:True},                  )
         addop("#p#cmpistrm",[0x0F, 0x3A,0x62], noafs, [rmr,u08] , {}                 ,{mmx:True}        , {w8:True},                  )
